@@ -263,38 +263,26 @@ decm!(decm_1_1, 1, 1);
 dec!(dec_1_2, 1, 2);
 //@ props=C02 tier=quick unwind=11 stubs=utf8
 decm!(decm_1_2, 1, 2);
-//@ props=C05,C10,C06,C07 tier=thorough unwind=11 stubs=utf8 cap=3600
-renc!(renc_1_2, 1, 2);
 //@ props=C01,C05 tier=thorough unwind=12 stubs=utf8
 dec!(dec_1_3, 1, 3);
 //@ props=C02 tier=thorough unwind=12 stubs=utf8
 decm!(decm_1_3, 1, 3);
-//@ props=C05,C10,C06,C07 tier=thorough unwind=12 stubs=utf8 cap=3600
-renc!(renc_1_3, 1, 3);
 //@ props=C01,C05,C20 tier=quick unwind=13 stubs=utf8
 dec!(dec_1_4, 1, 4);
 //@ props=C02 tier=quick unwind=13 stubs=utf8
 decm!(decm_1_4, 1, 4);
-//@ props=C05,C10,C06,C07 tier=thorough unwind=13 stubs=utf8 cap=3600
-renc!(renc_1_4, 1, 4);
 //@ props=C01,C05,C20 tier=thorough unwind=14 stubs=utf8
 dec!(dec_1_5, 1, 5);
 //@ props=C02 tier=thorough unwind=14 stubs=utf8
 decm!(decm_1_5, 1, 5);
-//@ props=C05,C10,C06,C07 tier=thorough unwind=14 stubs=utf8 cap=3600
-renc!(renc_1_5, 1, 5);
 //@ props=C01,C05,C20 tier=quick unwind=16 stubs=utf8
 dec!(dec_1_7, 1, 7);
 //@ props=C02 tier=quick unwind=16 stubs=utf8
 decm!(decm_1_7, 1, 7);
-//@ props=C05,C10,C06,C07 tier=thorough unwind=16 stubs=utf8 cap=3600
-renc!(renc_1_7, 1, 7);
 //@ props=C01,C05,C20 tier=thorough unwind=17 stubs=utf8
 dec!(dec_1_8, 1, 8);
 //@ props=C02 tier=thorough unwind=17 stubs=utf8
 decm!(decm_1_8, 1, 8);
-//@ props=C05,C10,C06,C07 tier=thorough unwind=17 stubs=utf8 cap=3600
-renc!(renc_1_8, 1, 8);
 //@ props=C01,C05,C20 tier=thorough unwind=11
 dec!(dec_2_0, 2, 0);
 //@ props=C02 tier=thorough unwind=11
@@ -1163,14 +1151,6 @@ dec!(dec_65535_2, 65535, 2);
 decm!(decm_65535_2, 65535, 2);
 //@ props=C03,C06,C07,C09 tier=quick unwind=14
 enc!(enc_0_2, 0, 2);
-//@ props=C03,C06,C07,C09 tier=thorough unwind=14 stubs=utf8 cap=3600
-enc!(enc_1_2, 1, 2);
-//@ props=C03,C06,C07,C09 tier=thorough unwind=16 stubs=utf8 cap=3600
-enc!(enc_1_4, 1, 4);
-//@ props=C03,C06,C07,C09 tier=thorough unwind=17 stubs=utf8 cap=3600
-enc!(enc_1_5, 1, 5);
-//@ props=C03,C06,C07,C09 tier=thorough unwind=20 stubs=utf8 cap=3600
-enc!(enc_1_8, 1, 8);
 //@ props=C03,C06,C07,C09 tier=quick unwind=14
 enc!(enc_2_2, 2, 2);
 //@ props=C03,C06,C07,C09 tier=quick unwind=16
@@ -1319,22 +1299,16 @@ pub const HARNESSES: &[(&str, fn())] = &[
     ("decm_1_1", decm_1_1),
     ("dec_1_2", dec_1_2),
     ("decm_1_2", decm_1_2),
-    ("renc_1_2", renc_1_2),
     ("dec_1_3", dec_1_3),
     ("decm_1_3", decm_1_3),
-    ("renc_1_3", renc_1_3),
     ("dec_1_4", dec_1_4),
     ("decm_1_4", decm_1_4),
-    ("renc_1_4", renc_1_4),
     ("dec_1_5", dec_1_5),
     ("decm_1_5", decm_1_5),
-    ("renc_1_5", renc_1_5),
     ("dec_1_7", dec_1_7),
     ("decm_1_7", decm_1_7),
-    ("renc_1_7", renc_1_7),
     ("dec_1_8", dec_1_8),
     ("decm_1_8", decm_1_8),
-    ("renc_1_8", renc_1_8),
     ("dec_2_0", dec_2_0),
     ("decm_2_0", decm_2_0),
     ("dec_2_1", dec_2_1),
@@ -1769,10 +1743,6 @@ pub const HARNESSES: &[(&str, fn())] = &[
     ("dec_65535_2", dec_65535_2),
     ("decm_65535_2", decm_65535_2),
     ("enc_0_2", enc_0_2),
-    ("enc_1_2", enc_1_2),
-    ("enc_1_4", enc_1_4),
-    ("enc_1_5", enc_1_5),
-    ("enc_1_8", enc_1_8),
     ("enc_2_2", enc_2_2),
     ("enc_3_4", enc_3_4),
     ("enc_4_4", enc_4_4),
